@@ -59,7 +59,6 @@ harness! {
 harness! {
     /// kind=bounded tier=quick bound="valid UTF-8 string<=6 bytes; an in-range index inside a character: every clamping variant must panic" expect_fail="non_char_boundary_panic \(stubbed\)"
     #[kani::unwind(8)]
-    #[kani::stub(konst_kernel::string::non_char_boundary_panic, crate::hlib::stub_non_char_boundary_panic)]
     fn c03_clamp_panics(s) {
         let bs = BStr::<6>::any(s);
         let h = bs.as_str();
@@ -80,7 +79,7 @@ harness! {
 }
 
 harness! {
-    /// kind=bounded tier=thorough bound="spec adequacy: utf8_ok == core::str::from_utf8(..).is_ok() on every byte string<=5 bytes"
+    /// kind=bounded tier=quick bound="spec adequacy: utf8_ok == core::str::from_utf8(..).is_ok() on every byte string<=5 bytes"
     #[kani::unwind(8)]
     fn c03_spec_utf8_ok(s) {
         let b: [u8; 5] = s.bytes();
